@@ -47,7 +47,7 @@ type checker struct {
 	mu    sync.Mutex
 	class map[string]int // violations per (mode, what)
 
-	execs, calls, blocks vk.Counter
+	execs, calls, blocks, harnessErrs vk.Counter
 	states               *vk.Set
 }
 
@@ -88,7 +88,7 @@ func (c *checker) evalTest(rg *rig, prog string) (m *Result, what, detail []stri
 	if err != nil {
 		return nil, nil, nil, err
 	}
-	com := hasOp(ops, 'F')
+	com := needsCommittee(ops)
 	m = runModel(c.s0, ops, com)
 	var rr *real
 	if e := chainxTry(func() { rr, err = rg.runTest(ops, com) }); e != nil {
@@ -115,7 +115,7 @@ func (c *checker) evalBlocks(progs []string, each func(i int, m *Result)) (idx i
 		if err != nil {
 			return -1, nil, nil, err
 		}
-		com := hasOp(ops, 'F')
+		com := needsCommittee(ops)
 		init, err := rg.initState()
 		if err != nil {
 			return -1, nil, nil, err
@@ -139,6 +139,15 @@ func (c *checker) evalBlocks(progs []string, each func(i int, m *Result)) (idx i
 	return -1, nil, nil, nil
 }
 
+func (c *checker) harness(err error) {
+	c.harnessErrs.Inc()
+	if c.harnessErrs.Get() <= 10 {
+		fmt.Println("harness error:", err)
+	}
+	c.r.Outcome("harness-error")
+	c.r.Capped()
+}
+
 func chainxTry(f func()) (err error) {
 	defer func() {
 		if r := recover(); r != nil {
@@ -150,12 +159,14 @@ func chainxTry(f func()) (err error) {
 }
 
 // admit applies the per-class cap so that one root cause does not flood.
-func (c *checker) admit(mode string, what []string) bool {
+func (c *checker) admit(mode string, what []string) bool { return c.admitN(mode, what, perClassCap) }
+
+func (c *checker) admitN(mode string, what []string, n int) bool {
 	k := mode + ":" + what[0]
 	c.mu.Lock()
 	defer c.mu.Unlock()
 	c.class[k]++
-	return c.class[k] <= perClassCap
+	return c.class[k] <= n
 }
 
 func (c *checker) reportTest(rg *rig, prog string, what, detail []string) {
@@ -225,7 +236,7 @@ func TestCheck(t *testing.T) {
 
 	// ---- layer A ----
 	sps := spaces(r.Thorough())
-	seen := map[string]bool{}
+	seen, seenBlk := map[string]bool{}, map[string]bool{}
 	var all, blk []string
 	spaceInfo := []map[string]any{}
 	for _, sp := range sps {
@@ -236,9 +247,10 @@ func TestCheck(t *testing.T) {
 				seen[p] = true
 				fresh++
 				all = append(all, p)
-				if sp.Block {
-					blk = append(blk, p)
-				}
+			}
+			if sp.Block && !seenBlk[p] {
+				seenBlk[p] = true
+				blk = append(blk, p)
 			}
 		}
 		spaceInfo = append(spaceInfo, map[string]any{"name": sp.Name, "levels": sp.Levels, "ops_alphabet": sp.NT, "failing_alphabet": sp.TM,
@@ -246,7 +258,7 @@ func TestCheck(t *testing.T) {
 			"nested_kinds_level1": sp.Kinds[1], "nested_kinds_level2": sp.Kinds[2], "programs": len(ps), "new_programs": fresh, "also_in_real_blocks": sp.Block})
 		fmt.Printf("space %s: %d programs (%d new)\n", sp.Name, len(ps), fresh)
 	}
-	seen = nil
+	seen, seenBlk = nil, nil
 	sortProgs(all)
 	sortProgs(blk)
 
@@ -256,8 +268,7 @@ func TestCheck(t *testing.T) {
 	r.Parallel(nch, func(ci int) {
 		rg, err := c.getRig()
 		if err != nil {
-			r.Outcome("harness-error: " + err.Error())
-			r.Capped()
+			c.harness(err)
 			return
 		}
 		defer c.putRig(rg)
@@ -267,8 +278,7 @@ func TestCheck(t *testing.T) {
 			}
 			m, what, detail, err := c.evalTest(rg, p)
 			if err != nil {
-				r.Outcome("harness-error: " + err.Error())
-				r.Capped()
+				c.harness(err)
 				return
 			}
 			c.execs.Inc()
@@ -293,6 +303,10 @@ func TestCheck(t *testing.T) {
 	})
 	fmt.Printf("layer A test invocations: %d programs, %.1fs\n", c.execs.Get(), r.Elapsed())
 
+	// ---- layer B ---- (before the real-block part of layer A so that a deadline never cuts it)
+	bstat := runAtomic(c)
+
+	// ---- layer A, real blocks ----
 	var bUndone, bFault, bHalt vk.Counter
 	nbc := (len(blk) + blockChunk - 1) / blockChunk
 	r.Parallel(nbc, func(ci int) {
@@ -311,8 +325,7 @@ func TestCheck(t *testing.T) {
 			}
 		})
 		if err != nil {
-			r.Outcome("harness-error: " + err.Error())
-			r.Capped()
+			c.harness(err)
 			return
 		}
 		if idx >= 0 {
@@ -327,9 +340,17 @@ func TestCheck(t *testing.T) {
 		}
 	}
 
-	// ---- layer B ----
-	bstat := runAtomic(c)
 
+	for k, v := range map[string]*vk.Counter{"A:test:HALT:callee-changes-undone": &undone, "A:test:HALT:callee-failed-nothing-to-undo": &restoredNoop,
+		"A:test:HALT:no-failure": &plain, "A:test:FAULT": &faulted, "A:block:HALT:callee-changes-undone": &bUndone, "A:block:FAULT": &bFault, "A:block:HALT:other": &bHalt} {
+		if v.Get() > 0 {
+			r.Outcome(k)
+		}
+	}
+	if n := c.harnessErrs.Get(); n > 0 && r.NViolations() == 0 {
+		fmt.Printf("CHECK-ERROR: %d harness errors (see above)\n", n)
+		os.Exit(3)
+	}
 	cov := map[string]any{
 		"states":                        c.states.Len(),
 		"transitions":                   int(c.calls.Get()),
